@@ -474,7 +474,7 @@ CLAIMED["C20"]["text"] += (" Round 7: the portable WRITERS are repaired (signbit
 CLAIMED["C01"]["text"] += (" Round 7: C01 through the portable IEEE path (SFC_TEST_IEEE_FLOAT_REPLACE) holds for EVERY finite value incl. subnormals and -0.0 (replace_roundtrip, no excluded class; "
                             "replace_roundtrip_old_rule_fails / _partial keep the rule before the repair); the campaign no longer waives anything and writes exponent field 0 heavily.")
 CLAIMED["C18"]["text"] += (" Round 7: the PEAK value field is exact below FLT_MIN too (Sf.PeakExact, SfProps/C18Exact.lean: peak_field_exact, peak_field_bytes, peak_chunk_roundtrip_exact -- the chunk re-opens as the binary32 of the "
-                            "maximum for every finite value; peak_field_old_rule / peak_field_old_rule_fails keep Sf.wrF32; chunk_agrees_old_rule: without a subnormal maximum the two chunks are the same bytes). 24 jobs with subnormal "
+                            "maximum for every finite value; peak_field_old_rule / peak_field_old_rule_fails keep the FLT_MIN rule as Sf.wrF32TinyOld; chunk_agrees: the handle model's chunk, which follows the repair, is the same bytes for every finite maximum). 24 jobs with subnormal "
                             "maxima (all six containers, both encodings, doubles between two subnormal floats, FLT_MIN as boundary) run on every seed; nothing below FLT_MIN is waived any more.")
 
 
